@@ -272,7 +272,7 @@ def install(ctx):
     core.wrap_method(C.QuadricTensor, "from_planes", post_from_pair)
     core.wrap_method(C.QuadricTensor, "is_degenerate", post_is_degenerate)
     core.wrap_method(C.QuadricTensor, "components", post_components)
-    core.wrap_method(C.Conic, "intersect", post_conic_intersect)
+    core.wrap_method_everywhere(C.Conic, "intersect", post_conic_intersect)  # also overrides in subclasses (Circle, Ellipse ...) if a refactor adds them
 
 
 # ---------------------------------------------------------------------------------
@@ -476,6 +476,25 @@ def g_conic_pairs(ctx, rng, i):
             e.intersect(c2)
         except Exception:
             pass
+        # images of circles under maps that are not similarities keep their class but are ellipses / parabolas / hyperbolas
+        tm = gen.invertible_int_matrix(rng, 3, 2, affine=bool(i % 12 < 6))
+        t = g.Transformation(tm)
+        sc = g.scaling(float(rng.integers(2, 4)), 1)
+        for a, b in ((sc * c1, c2), (c1, sc * c2), (t * c1, t * c2), (t * c1, c2), (sc * c1, sc * c2 + g.Point(1, 0))):
+            try:
+                a.intersect(b)
+            except Exception:
+                pass
+        # two line pairs (both conics degenerate): the four pairwise intersections
+        L = [gen.nonzero_vec(rng, 3, 4) for _ in range(4)]
+        if all(X.rank([X.vec(L[a_]), X.vec(L[b_])]) == 2 for a_ in range(4) for b_ in range(a_ + 1, 4)):
+            d1, d2 = g.Conic.from_lines(g.Line(L[0]), g.Line(L[1])), g.Conic.from_lines(g.Line(L[2]), g.Line(L[3]))
+            for a, b in ((d1, d2), (d2, d1)):
+                try:
+                    a.intersect(b)
+                except Exception as ex:
+                    ctx.judge("conic_conic", False, L, what=f"intersect of two line pairs raised {type(ex).__name__}: {str(ex)[:80]}", op="Conic.intersect (two line pairs)", nontrivial=True,
+                              feat={"exc": type(ex).__name__})
     elif kind == 4:
         # tangent pair: circles touching at one point (repeated root of the pencil cubic)
         c = gen.coords(rng, (2,), 3, "int").astype(float)
